@@ -41,6 +41,9 @@ CHECKS = {
  "C07": ("model_checking", "explicit-state BFS over client-side histories replayed on a real client cache and two real servers, canonical-state de-duplication, reference map (tag, address, command) -> reusable sessions",
          "E-BFS", "All histories up to depth 3 (quick) / 4 (thorough) over 20 events (12 handshakes over tag x server x command, server restarts, lost resumption request / reply, two virtual-time advances, invalidation, sweep), de-duplicated by canonical state: the resumption request the server receives (parsed off the wire) may name only a session established under the same tag and address, valid for that command and still alive; a failed resumption must remove the session and every route to it; after every event every route in the real cache must be allowed by the reference map.",
          "Only safety is demanded; sequential in one process; virtual time via re-stored entries.", "DESIGN.md §3 C07"),
+ "C05": ("model_checking", "bounded exhaustive enumeration of connection/command histories against a real server.Server with a monitor in every handler and ground truth taken from the wire",
+         "E-BFS", "All histories up to depth 3 (quick, reduced alphabet) / 4 (thorough) over open(client kind, first command) / kept-alive follow-on / explicit resume with another command / authorizer switch / raw send, on a server whose commands carry different per-command policies and authorization levels. Every handler invocation is judged: registered, reached through the right path, authentication really ran on the wire when required, stream really encrypted (and canaries invisible) when required, identity authorized under the current table; refused or unknown commands close the connection with no handler run.",
+         "Client kinds: TOKEN alice/bob, unauthenticated, plaintext, scripted key-skipping CLAIMTOBE client; 16 worker processes isolate the process-global server cache.", "DESIGN.md §3 C05"),
 }
 PENDING = "check not built yet in this session (planned, DESIGN.md section 3); listed here until its check is registered"
 def main():
